@@ -54,6 +54,9 @@ def _history(draw):
                           "sc": [draw(gen.f(0.8, 1.25))]} for _ in range(3)]
         spec["useed"] = [draw(gen.f(-2, 2)) for _ in range(7)]
         methods = ["r_OP", "A_IB", "r_OP_q", "A_IB_q", "v_P", "J_P", "E_pot", "h", "h_q"]
+        if rs["interp"] in ("R12", "SE3"):
+            # these interpolations support complex-step differentiation (numerical_jacobian_method="cs")
+            methods += ["r_OP_complex_step"]
         changers = ["step_callback", "set_reference_strains", "overwrite_q"]
     elif kind == "s2s":
         # first subsystem: a rigid body or a Frame with prescribed (time-dependent) motion
@@ -195,6 +198,15 @@ def check(spec):
                 if m == "h_q":
                     return system.h_q(t, q, u)
                 qe, ue = q[rod.local_qDOF_P(xi)], u[rod.local_uDOF_P(xi)]
+                if m == "r_OP_complex_step":
+                    # the real evaluation first, then the complex-perturbed one at the same real part
+                    rod.r_OP(t, qe, xi, B)
+                    if op.get("_twin"):
+                        _clear([rod, rod.mesh_r, rod.mesh_p])
+                    k_ = (op["q"] + op["t"]) % len(qe)
+                    qc = qe.astype(complex)
+                    qc[k_] += 1e-20j
+                    return np.imag(np.asarray(rod.r_OP(t, qc, xi, B))) / 1e-20
                 if m in ("A_IB", "A_IB_q"):
                     return getattr(rod, m)(t, qe, xi)
                 if m in ("r_OP", "r_OP_q", "J_P"):
@@ -280,7 +292,7 @@ def check(spec):
         seen.add(key)
         va = ev_a(op)
         _clear(objs_b)
-        vb = ev_b(op)
+        vb = ev_b(dict(op, _twin=True))
         res.ok()
         if op["op"] == "after_inplace_update" and np.any(np.abs(np.asarray(va)) > 1e-15):
             res.fail("memoised_equals_unmemoised", f"{site}.r_OP/v_P(state array updated in place)", float(np.max(np.abs(va))), feats,
